@@ -92,7 +92,7 @@ def apply_edit(d, file, old, new, count=1):
     return True, ""
 
 
-def check_variant(d, props, worker=0):
+def check_variant(d, props, worker=0, keep_facts=True):
     """Extract facts for scratch tree d and run the given properties. Returns dict prop -> result."""
     from . import engine
     fd = extract.facts_dir(repo=d, target=worker_target(worker))
@@ -105,6 +105,8 @@ def check_variant(d, props, worker=0):
             "known": [o.key for o in known_hits],
             "obligations": len(run.obs),
         }
+    if not keep_facts:
+        shutil.rmtree(fd, ignore_errors=True)
     return out
 
 
